@@ -141,11 +141,31 @@ enum Ref {
 pub struct State {
     ctx: Option<BuildContext<TB>>,
     refs: HashMap<String, Ref>,
+    /// the FIRST LayerRef obtained for a name since the last drop_refs: a second handle to the same layer, older than `refs`
+    first_refs: HashMap<String, Ref>,
+}
+
+impl State {
+    fn keep(&mut self, name: String, r: Ref) {
+        if let Some(old) = self.refs.insert(name.clone(), r) {
+            self.first_refs.entry(name).or_insert(old);
+        }
+    }
+
+    /// the handle a write goes through: the newest one, or (request field "stale": true) the oldest one still held
+    fn pick(&self, req: &Value) -> Option<&Ref> {
+        let name = jstr(req, "name");
+        if jbool(req, "stale") {
+            self.first_refs.get(name).or_else(|| self.refs.get(name))
+        } else {
+            self.refs.get(name)
+        }
+    }
 }
 
 impl State {
     pub fn new() -> Self {
-        State { ctx: None, refs: HashMap::new() }
+        State { ctx: None, refs: HashMap::new(), first_refs: HashMap::new() }
     }
 }
 
@@ -290,16 +310,27 @@ fn shim_pause(on: bool) {
 
 /// Builds the LayerResult a create/update callback returns, and performs its file-system side effects.
 fn result_from<M>(spec: &Value, metadata: M, layer_path: &Path) -> Result<LayerResult<M>, TErr> {
+    result_from_with(spec, metadata, layer_path, None)
+}
+
+/// `current_env`: the env of the LayerData handed to update(); returned unchanged when the spec says "env_same_as_data"
+fn result_from_with<M>(spec: &Value, metadata: M, layer_path: &Path, current_env: Option<&libcnb::layer_env::LayerEnv>) -> Result<LayerResult<M>, TErr> {
     if let Some(e) = spec.get("err").and_then(Value::as_str) {
         return Err(TErr(e.to_string()));
     }
     shim_pause(true);
-    let r = result_from_inner(spec, metadata, layer_path);
+    let r = result_from_inner(spec, metadata, layer_path, current_env);
     shim_pause(false);
     r
 }
 
-fn result_from_inner<M>(spec: &Value, metadata: M, layer_path: &Path) -> Result<LayerResult<M>, TErr> {
+fn result_from_inner<M>(spec: &Value, metadata: M, layer_path: &Path, current_env: Option<&libcnb::layer_env::LayerEnv>) -> Result<LayerResult<M>, TErr> {
+    if jbool(spec, "wipe_env_dirs") {
+        // the callback tidies the layer directory itself (env directories included) before it returns its result
+        for d in ["env", "env.build", "env.launch"] {
+            let _ = std::fs::remove_dir_all(layer_path.join(d));
+        }
+    }
     for f in jarr(spec, "write_files") {
         let f = f.as_array().unwrap();
         let p = layer_path.join(f[0].as_str().unwrap());
@@ -318,7 +349,9 @@ fn result_from_inner<M>(spec: &Value, metadata: M, layer_path: &Path) -> Result<
         let _ = std::fs::remove_file(layer_path.join(f.as_str().unwrap()));
     }
     let mut b = LayerResultBuilder::new(metadata);
-    if let Some(env) = spec.get("env").filter(|e| !e.is_null()) {
+    if let (true, Some(cur)) = (jbool(spec, "env_same_as_data"), current_env) {
+        b = b.env(cur.clone());
+    } else if let Some(env) = spec.get("env").filter(|e| !e.is_null()) {
         b = b.env(layer_env_from(env.as_array().unwrap()));
     }
     for p in jarr(spec, "exec_d") {
@@ -365,7 +398,7 @@ macro_rules! scripted_layer {
             fn update(&mut self, _: &BuildContext<TB>, d: &LayerData<$meta>) -> Result<LayerResult<$meta>, TErr> {
                 self.0.log.borrow_mut().push(json!({"cb": "update", "data": layer_data_json(d)}));
                 let spec = &self.0.req["update"];
-                result_from(spec, $mk(spec.get("metadata_value").and_then(Value::as_str).unwrap_or("")), &d.path)
+                result_from_with(spec, $mk(spec.get("metadata_value").and_then(Value::as_str).unwrap_or("")), &d.path, Some(&d.env))
             }
             fn migrate_incompatible_metadata(&mut self, _: &BuildContext<TB>, m: &GenericMetadata) -> Result<MetadataMigration<$meta>, TErr> {
                 self.0.log.borrow_mut().push(json!({"cb": "migrate", "metadata": md_json(m)}));
@@ -403,6 +436,7 @@ pub fn handle(st: &mut State, req: &Value) -> Value {
         "init" => {
             let descriptor = "api = \"0.10\"\n[buildpack]\nid = \"vp/test\"\nversion = \"1.0.0\"\n";
             st.refs.clear();
+            st.first_refs.clear();
             st.ctx = Some(BuildContext {
                 layers_dir: PathBuf::from(jstr(req, "layers_dir")),
                 app_dir: PathBuf::from(jstr(req, "app_dir")),
@@ -427,6 +461,7 @@ pub fn handle(st: &mut State, req: &Value) -> Value {
         }
         "drop_refs" => {
             st.refs.clear();
+            st.first_refs.clear();
             json!({"ok": true})
         }
         "cached" => {
@@ -481,7 +516,7 @@ pub fn handle(st: &mut State, req: &Value) -> Value {
             match res {
                 Ok(r) => {
                     let rep = json!({"state": state_json(&r.state), "path": r.path().to_string_lossy(), "callbacks": log.into_inner()});
-                    st.refs.insert(name.to_string(), Ref::Cached(r));
+                    st.keep(name.to_string(), Ref::Cached(r));
                     rep
                 }
                 Err(e) => {
@@ -559,7 +594,7 @@ pub fn handle(st: &mut State, req: &Value) -> Value {
                         },
                     };
                     let rep = json!({"state": state, "path": r.path().to_string_lossy(), "callbacks": []});
-                    st.refs.insert(name.to_string(), Ref::Uncached(r));
+                    st.keep(name.to_string(), Ref::Uncached(r));
                     rep
                 }
                 Err(e) => err_variant(&e),
@@ -567,7 +602,7 @@ pub fn handle(st: &mut State, req: &Value) -> Value {
         }
         // a common buildpack idiom: derive values from the layer's env and record them in the layer metadata
         "env_to_metadata" => {
-            let Some(r) = st.refs.get(jstr(req, "name")) else {
+            let Some(r) = st.pick(req) else {
                 return json!({"no_ref": true});
             };
             let res = do_ref(r, |x| x.read_env()).and_then(|env| {
@@ -592,7 +627,7 @@ pub fn handle(st: &mut State, req: &Value) -> Value {
             }
         }
         "write_metadata" | "write_metadata_typed" | "write_env" | "read_env" | "write_sboms" | "write_exec_d" | "path" => {
-            let Some(r) = st.refs.get(jstr(req, "name")) else {
+            let Some(r) = st.pick(req) else {
                 return json!({"no_ref": true});
             };
             let res: libcnb::Result<Value, TErr> = match jstr(req, "op") {
